@@ -17,7 +17,8 @@ RULE = ("each case: SDMF/MDMF, k<=3, N<=5 on N..N+2 servers; every share number 
         "corrupt share); recoverable <=> some version has >=k distinct share numbers; repair without force raises MustForceRepairError when a newer unrecoverable version "
         "or a recoverable same-seqnum competitor exists and then leaves every share file byte-identical; a successful repair leaves the best version's contents unchanged "
         "as the best recoverable version of a full survey, with N distinct share numbers of one version. Non-trivial = at least two versions present or any share missing/"
-        "corrupt/duplicated; distinct by whole case.")
+        "corrupt/duplicated; distinct by whole case."
+        ' Added shapes: every copy of one share number damaged (twin), several damaged shares among current ones (pair), damaged duplicates.')
 LEVEL_TEXT = "Layout search over genuinely published versions with a file-derived reference model."
 ASSUMPTIONS = ["block corruption is only detectable with verify=True; without verify a block-corrupted share counts as a share of its version",
                "an unrecoverable competitor with the same sequence number as the best version is accepted either way (the statement speaks about picking between competing versions)"]
